@@ -114,6 +114,9 @@ NOTES = {
     "C08_7": ("MISSED by C08 at first run (reported by C11, which mirrors the rollup exit tree): C08's harness served proofs of the bridge exit tree only",
               "props/c08 + props/l1info_common.run_c08_part: the C08 check also serves and re-verifies every proof of the L1 info tree and of the rollup exit tree "
               "(the updatable tree) through the real l1infotreesync processor on the L1 histories of the C11 check"),
+    "C05_9": ("not reported by C05 (its harness drives the sync package's downloader and driver over a recording store; the change is inside the l1infotreesync processor); reported by C07's L1 info "
+              "tree part (storage fault, then the driver's retry) with a concrete failing input",
+              ""),
     "C05_8": ("only no-failing-input-found at first run (754 correspondence mismatches: an extra empty block per removed log): the scripted node gave removed logs the canonical block hash",
               "harness/c05: every second removed log carries the hash of the block it was removed from (an orphan hash), as a real node reports it; "
               "the unchanged downloader drops removed logs before it looks at them, so nothing else moves"),
